@@ -610,6 +610,43 @@ impl<'ast> Visit<'ast> for WildClosureParamPass {
     }
 }
 
+// ---------------------------------------------------------------- N20 `|(a, b)| body`
+
+/// `|(a, b), c| body`  ->  `|verif_p0, c| { let (a, b) = verif_p0; body }`  (Verus: closure parameters must be variables).
+/// The irrefutable pattern is bound by a `let` at the top of the closure body: same bindings, same moves.
+struct PatClosureParamPass<'s> {
+    src: &'s str,
+    edits: Vec<Edit>,
+}
+impl<'ast, 's> Visit<'ast> for PatClosureParamPass<'s> {
+    fn visit_expr_closure(&mut self, c: &'ast syn::ExprClosure) {
+        let mut lets = String::new();
+        for (k, inp) in c.inputs.iter().enumerate() {
+            let (pat, ty) = match inp { syn::Pat::Type(t) => (&*t.pat, Some(&*t.ty)), other => (other, None) };
+            if matches!(pat, syn::Pat::Tuple(_) | syn::Pat::TupleStruct(_) | syn::Pat::Struct(_) | syn::Pat::Reference(_)) {
+                let r = range(inp.span());
+                let name = format!("verif_p{k}");
+                let pat_text = &self.src[range(pat.span())];
+                let new_param = match ty { Some(t) => format!("{name}: {}", &self.src[range(t.span())]), None => name.clone() };
+                self.edits.push(Edit { start: r.start, end: r.end, text: new_param, rule: "N20" });
+                lets.push_str(&format!("let {pat_text} = {name}; "));
+            }
+        }
+        if !lets.is_empty() {
+            let br = range(c.body.span());
+            if let syn::Expr::Block(b) = &*c.body {
+                let o = range(b.block.brace_token.span.open()).end;
+                self.edits.push(Edit { start: o, end: o, text: format!(" {lets}"), rule: "N20" });
+            } else {
+                self.edits.push(Edit { start: br.start, end: br.start, text: format!("{{ {lets}"), rule: "N20" });
+                self.edits.push(Edit { start: br.end, end: br.end, text: " }".into(), rule: "N20" });
+            }
+        } else {
+            visit::visit_expr_closure(self, c);
+        }
+    }
+}
+
 // ---------------------------------------------------------------- N8 format!
 
 struct FormatPass<'s> {
@@ -821,6 +858,17 @@ pub fn normalize(
         if !p.edits.is_empty() {
             bump(fired, "N18", 1);
             text = apply_edits_all(&text, p.edits);
+        }
+    }
+    // N20 (outermost closures first; nested ones on the next round)
+    if !skip("N20") {
+        for _ in 0..8 {
+            let f = parse(&text, "N18")?;
+            let mut p = PatClosureParamPass { src: &text, edits: vec![] };
+            p.visit_file(&f);
+            if p.edits.is_empty() { break; }
+            bump(fired, "N20", 1);
+            text = apply_zero_width_safe(&text, p.edits);
         }
     }
     // N9 (automatic)
@@ -1076,11 +1124,20 @@ pub fn splice(
             }).collect();
             let hdr = t.trim();
             let hdr_params: Vec<String> = match (hdr.find('|'), hdr.find('|').and_then(|a| hdr[a + 1..].find('|').map(|b| (a, a + 1 + b)))) {
-                (Some(_), Some((a, b))) => hdr[a + 1..b].split(',').map(|x| x.split(':').next().unwrap_or("").trim().trim_start_matches("mut ").to_string()).filter(|x| !x.is_empty()).collect(),
+                (Some(_), Some((a, b))) => {
+                    // split at top-level commas only (a parameter type may be a tuple or a generic)
+                    let (mut depth, mut cur, mut parts) = (0i32, String::new(), Vec::new());
+                    for ch in hdr[a + 1..b].chars() {
+                        match ch { '(' | '<' | '[' => depth += 1, ')' | '>' | ']' => depth -= 1, _ => {} }
+                        if ch == ',' && depth == 0 { parts.push(std::mem::take(&mut cur)); } else { cur.push(ch); }
+                    }
+                    parts.push(cur);
+                    parts.iter().map(|x| x.split(':').next().unwrap_or("").trim().trim_start_matches("mut ").to_string()).filter(|x| !x.is_empty()).collect()
+                }
                 _ => vec![],
             };
             let same = src_params.len() == hdr_params.len()
-                && src_params.iter().zip(&hdr_params).all(|(a, b)| a == b || a == "_" || a.starts_with("_verif_unused"));
+                && src_params.iter().zip(&hdr_params).all(|(a, b)| a == b || a == "_" || a.starts_with("_verif_unused") || a.starts_with("verif_p"));
             if !same {
                 return Err(Lost(format!("anchor lost: @closure {k} is written for parameters ({}) but the {k}-th closure of the function takes ({})", hdr_params.join(", "), src_params.join(", "))));
             }
